@@ -124,3 +124,7 @@ def run(ctx, eng):
            'ProtocolError before process_input when end_stream and 1xx',
            node=fi.node)
     ctx.assume('header-list validity is decided under C14')
+    cm.include(ctx, eng, 'C23', {('ORD.gate', 'prioritize'),
+                                 ('ORD.gate', 'send_headers')},
+               'a server can send neither PRIORITY nor priority fields on '
+               'HEADERS')
